@@ -48,6 +48,7 @@ func checkC20(c *core.Ctx) error {
 		p.stress = 60
 		p.logRuns, p.logLines = 200, 4000
 	}
+	p.mc = append(p.mc, chaosMC())
 	p.realCfgs = p.cfgs
 	if err := runPlan(c, p); err != nil {
 		return err
